@@ -802,6 +802,19 @@ def check_metrics_core(rep, fl):
                 ok = [norm(in_parent_terms(facts, x, y, stop_at=b)) for y in x.call_args(t_)][1:] == [V("typ"), V("hash"), V("delta")]
         ok = ok and len(ia) == 1
     rep.check(ok, "R17.6", fl, b, "Metrics::add forwards", "Metrics::add forwards (typ, hash, delta) unchanged to the Op metrics", "Metrics::add does not forward its arguments")
+    # the public getters of `Metrics` hand out the Op metrics' getter of the same name
+    ng = 0
+    for bx in facts.bodies:
+        r_ = strip_generics(bx.raw["root"])
+        if bx.is_closure or not r_.startswith(MET + "::") or not (r_.split("::")[-1].startswith("get_") or r_.split("::")[-1] in ("ratio", "life_expectancy_seconds")):
+            continue
+        g = r_.split("::")[-1]
+        inner_calls = [short(x.callee_of(t_)) for x in [bx] + list(descendants(facts, bx)) for _, t_ in x.calls() if "MetricsInner::" in x.callee_of(t_)]
+        ng += 1
+        rep.check(inner_calls == ["MetricsInner::" + g], "R17.6", fl, bx, "Metrics::" + g + " forwards", "Metrics::%s() returns MetricsInner::%s() of the Op metrics" % (g, g),
+                  "Metrics::%s() reads %s" % (g, inner_calls))
+    if ng < 11:
+        rep.missing("R17.6", fl, "only %d public getters of Metrics found" % ng)
     # R17.7 exhaustiveness
     adt = facts.adts.get("metrics::MetricType")
     variants = [v["name"] for v in adt["variants"]] if adt else []
@@ -921,7 +934,56 @@ def check_histogram(rep, fl):
         ok = ok and not pe.in_loop(te[0][0])
     rep.check(ok, "R17.8", fl, pe, "one sample per tracked eviction", "prepare_evict adds one life-expectancy sample iff the key is in start_ts", "prepare_evict does not add exactly one sample per tracked key")
     tr = facts.body("metrics::MetricsInner::track_eviction")
-    rep.check(len(calls_to(tr, "histogram::Histogram::update")) == 1, "R17.8", fl, tr, "forwards", "track_eviction forwards to Histogram::update", "track_eviction does not update the histogram")
+    hu = calls_to(tr, "histogram::Histogram::update")
+    ok = len(hu) == 1 and must_pass_through(tr, [hu[0][0]]) and [norm(x) for x in tr.call_args(hu[0][1])] == [norm(F(V("self"), "life")), V(tr.local_name.get(2, "arg2"))]
+    rep.check(ok, "R17.8", fl, tr, "forwards", "track_eviction hands every sample to life.update, whatever its value", "track_eviction does not hand every sample to the life-expectancy histogram")
+    # what the user reads back is that histogram: life_expectancy_seconds() clones self.life, and the clone takes every
+    # field from the same field of the original
+    le = facts.body("metrics::MetricsInner::life_expectancy_seconds")
+    e = norm(return_expr(le))
+    ok = is_call(e, "Clone::clone") and norm(e[2][0]) == norm(F(V("self"), "life"))
+    rep.check(ok, "R17.8", fl, le, "returns life", "life_expectancy_seconds() returns a copy of the tracked histogram", "life_expectancy_seconds() returns %s, not a copy of self.life" % show(e))
+    hadt = facts.adts.get("histogram::Histogram")
+    hfields = [f_["name"] for f_ in hadt["variants"][0]["fields"]] if hadt else []
+    hcl = [x for x in facts.bodies if x.spath == "<histogram::Histogram as std::clone::Clone>::clone"]
+    if len(hfields) < 4:
+        rep.missing("R17.8", fl, "Histogram fields")
+    elif hcl:
+        # (a derived Clone has no MIR body of ours to get wrong)
+        ags = agg_nodes(hcl[0], "Histogram")
+        ok = len(ags) == 1
+        if ok:
+            f_ = agg_fields(ags[0][3])
+            for name in hfields:
+                v = f_.get(name)
+                mine = norm(F(V("self"), name))
+                ok = ok and v is not None and mentions(v, mine) and not any(mentions(v, norm(F(V("self"), o))) for o in hfields if o != name)
+            ok = ok and norm(return_expr(hcl[0])) == norm(ags[0][3])
+        rep.check(ok, "R17.8", fl, hcl[0], "clone copies every field", "Histogram::clone takes each field from the same field of the original", "Histogram::clone does not copy every field from its counterpart")
+    # clear: every counter of the histogram goes back to 0 - count, sum, min, max and each bucket - on every path
+    hc = facts.flat(facts.body("histogram::Histogram::clear"))
+    zero = {}
+    for bi, t in calls_to(hc, "store"):
+        a = [norm(x) for x in hc.call_args(t)]
+        if a[1] == ("const", 0, "i64"):
+            zero[bi] = a[0]
+    okc = True
+    miss_ = []
+    for name in hfields:
+        ty = [f_["ty"] for f_ in hadt["variants"][0]["fields"] if f_["name"] == name][0]
+        if "Atomic<i64>" not in ty:
+            continue
+        mine = norm(F(V("self"), name))
+        if "Vec<" in ty:
+            its_ = [i_ for i_ in iterations(hc) if mentions(norm(hc.expand(i_.source)), mine)]
+            good = len(its_) == 1 and must_pass_through(hc, [its_[0].nbi]) and any(bi in its_[0].region and its_[0].is_elem(hc.call_args(t)[0]) and its_[0].every_round([bi])
+                                                                                       for bi, t in calls_to(hc, "store") if bi in zero)
+        else:
+            good = any(v == mine and must_pass_through(hc, [bi]) for bi, v in zero.items())
+        if not good:
+            okc = False
+            miss_.append(name)
+    rep.check(okc and len(hfields) >= 4, "R17.8", fl, hc, "clear zeroes every counter", "Histogram::clear stores 0 into count, sum, min, max and every bucket", "Histogram::clear leaves %s as they were: after clear() the count no longer equals the sum of the buckets" % miss_)
     rep.note("F11 (observation, not a violation of the conditional clause): track_admission inserts into start_ts only when start_ts.len() > num_to_keep, so no entry is ever tracked")
 
 
@@ -1142,15 +1204,27 @@ def check_C15(rep, fl):
         full = lambda s: any(a[0] == "bin" and a[1] == "Lt" and is_call(a[2], "Vec::len") and a[3] == norm(F(V("self"), "capa")) and v is False for a, v in s.lits)
         ok = all(full(s) for s in sts)
         # conversely: on the len >= capa edge the flush is unavoidable
+        conv = True
         for bi in rb.live_blocks():
             t = rb.term(bi)
             if t and t["k"] == "switch":
                 for tgt, atom, pol in edge_literals(rb, bi):
                     ea = norm(rb.expand(atom)) if atom is not None else None
                     if ea is not None and ea[0] == "bin" and ea[1] == "Lt" and is_call(ea[2], "Vec::len") and pol is False:
-                        ok = ok and must_pass_through(rb, [pp_[0][0]], from_bi=tgt)
+                        conv = conv and must_pass_through(rb, [pp_[0][0]], from_bi=tgt)
+        if not conv:
+            # the full / not-full answer may travel through a value (`if let Some(batch) = self.append(item)`): decide
+            # it per feasible path - every path that saw len >= capa has flushed once when it leaves
+            outs_, _at = count_paths(rb, lambda bi_, t_: "flush" if t_ is pp_[0][1] else None)
+            conv = bool(outs_) and all((cnt_.get("flush", 0) == 1) == full(expand_state(rb, s_, hist=True)) for s_, cnt_ in outs_)
+        ok = ok and conv
         # batch handed over is a copy of the buffer
         a = [norm(x) for x in rb.call_args(pp_[0][1])]
+        if a[1][0] == "field" and a[1][1][0] == "downcast" and a[1][1][2] == "Some" and a[1][1][1][0] in ("tmp", "var"):
+            # the batch travelled through an Option built in this body (`Some(batch)` on the full path, `None` otherwise)
+            pays = [d_[3][0] for d_ in (norm(x_) for x_ in var_def_exprs(rb, a[1][1][1], True)) if d_[0] == "agg" and str(d_[2]).endswith("Option::Some") and len(d_[3]) == 1]
+            if len(pays) == 1:
+                a[1] = norm(rb.expand(pays[0]))
         taken = (is_call(a[1], "mem::replace") and len(a[1][2]) == 2 and (is_call(a[1][2][1], "Vec::with_capacity") or is_call(a[1][2][1], "Vec::new"))) or is_call(a[1], "mem::take")
         ok = ok and a[0] == norm(F(V("self"), "cons")) and (is_call(a[1], "Clone::clone") or a[1][0] == "var" or taken)
     rep.check(ok, "R15.2", fl, rb, "flush iff full", "the batch is handed to the policy exactly when it reached capa", "the batch is not flushed exactly when len >= capa")
@@ -1162,6 +1236,11 @@ def check_C15(rep, fl):
         tk = [bi for bi, t in rb.calls() if (callee_matches(rb.callee_of(t), "mem::take") or callee_matches(rb.callee_of(t), "mem::replace")) and "Vec<u64>" in (t.get("destty") or "")]
         emptied = clears + repl + tk
         ok = bool(emptied) and (must_pass_through(rb, emptied, from_bi=pp_[0][0]) or any(block_dominates(rb, e, pp_[0][0]) for e in emptied))
+        if emptied and not ok:
+            # per feasible path (the flush decision may travel through a value): whoever flushed has emptied
+            es_ = set(emptied)
+            outs_, _at = count_paths(rb, lambda bi_, t_: "flush" if t_ is pp_[0][1] else ("empty" if bi_ in es_ and t_ is rb.term(bi_) else None))
+            ok = bool(outs_) and all(cnt_.get("empty", 0) >= 1 for s_, cnt_ in outs_ if cnt_.get("flush", 0)) and not repl
         rep.check(ok, "R15.2", fl, rb, "emptied", "the batch buffer is emptied whatever the outcome of the flush", "after a flush the buffer can keep its contents: the same lookups are recorded twice")
     import props_store
     props_store.check_single_section(rep, fl, "R15.2", [fl.ring + "::push"], "appending a lookup, handing the full batch over (or copying it) and emptying the buffer")
@@ -1283,7 +1362,7 @@ def check_policy_push(rep, fl, pb):
     for s, cnt in outs:
         es = expand_state(pb, s, hist=True)
         closed = any(is_call(a, "load") and v for a, v in es.lits)
-        empty = any(a[0] == "bin" and a[1] == "Eq" and v and mentions(a, norm(n_len)) for a, v in es.lits)
+        empty = any(a[0] == "bin" and a[1] == "Eq" and v and mentions(a, norm(call("std::vec::Vec::len", keys))) and any(z[0] == "const" and z[1] == 0 for z in (a[2], a[3])) for a, v in es.lits)
         # is this return the map/map_err chain?
         chain = False
         for rbi, rsi in pb.defs.get(0, []):
@@ -1307,7 +1386,7 @@ def check_policy_push(rep, fl, pb):
             es_list = [expand_state(pb, s, hist=True) for s in sts]
             for s, es in zip(sts, es_list):
                 closed = any(is_call(a, "load") and v for a, v in es.lits)
-                empty = any(a[0] == "bin" and a[1] == "Eq" and v and mentions(a, norm(n_len)) for a, v in es.lits)
+                empty = any(a[0] == "bin" and a[1] == "Eq" and v and mentions(a, norm(call("std::vec::Vec::len", keys))) and any(z[0] == "const" and z[1] == 0 for z in (a[2], a[3])) for a, v in es.lits)
                 d = {k_: v_ for k_, v_ in (s.user or ()) if not k_.startswith("$")}
                 if closed or empty:
                     continue
